@@ -478,6 +478,32 @@ Proof.
   intro b. apply body_table_prop; [constructor|]. repeat constructor; discriminate.
 Qed.
 
+(* an update whose AMOUNT cannot be added to the value (inc / observe of a str, None, a Decimal ...) raises by design,
+   inside the critical section of the value (`with lock: self._value += amount`, OIncFail x true: the cell is read, the
+   addition raises, the unwinding `with` releases the mutex) or before it (OIncFail x false).  Its program passes the
+   discipline check (simple_op_w, so C02_operations_disciplined, C02_mutual_exclusion, C02_no_lost_update and
+   C02_deadlock_free cover every world that contains it: the series stays usable by the other threads).  Non-vacuity: a
+   thread observes 3 and then fails on cell 4, another thread adds 5 to the same cell, interleaved so that the second
+   thread waits for the mutex while the first one is failing: both finish, the first one raised, the mutex of the cell
+   is free and the cell holds the accepted increments *)
+Example C02_failed_update_nonvacuous :
+  let opss := [[OInc (SLoc 4) 3; OIncFail (SLoc 4) true]; [OInc (SLoc 4) 5; OIncFail (SLoc 3) false]] in
+  let ps := map (compile_thread false) opss in
+  let c := exec (fun _ => []) (repeat 0%nat 6 ++ repeat 1%nat 2 ++ repeat 0%nat 6 ++ repeat 1%nat 12)
+             (init_config (fun _ => 0%Z) (fun _ => []) 0 ps) in
+  Forall (Forall (simple_op_w 10)) opss /\ wf_world false (fun _ => []) ps /\
+  heap c (LStat 4) = 8%Z /\ code (thr c 0%nat) = [] /\ code (thr c 1%nat) = [] /\
+  In (EvExc 0%nat) (trace c) /\ In (EvExc 1%nat) (trace c) /\ locks c (KStat 104) = None /\
+  ~ Forall (Forall nonraising) opss.
+Proof.
+  cbv zeta. split; [repeat constructor|]. split.
+  { split; [|intro b; exists 1%nat; reflexivity].
+    repeat constructor; apply wf_prog_disciplined; vm_compute; reflexivity. }
+  split; [vm_compute; reflexivity|]. split; [vm_compute; reflexivity|]. split; [vm_compute; reflexivity|].
+  split; [vm_compute; tauto|]. split; [vm_compute; tauto|]. split; [vm_compute; reflexivity|].
+  intro H. inversion H as [|? ? H1 _]; subst. inversion H1 as [|? ? _ H2]; subst. inversion H2 as [|? ? H3 _]; subst. exact H3.
+Qed.
+
 (* C02_terminates for worlds WITH collect() / _multi_samples loops and collector calls (every disciplined world):
    a fair schedule (rounds naming every thread) finishes every thread as soon as its number of rounds reaches
    total_steps ps plus (2L+1) for each loop / callout instruction it executes (L bounds the length of the bodies).
